@@ -47,7 +47,7 @@ class G:
         self.leaves.append(d)
         return d
 
-    def step(self, cur, shape, positive):
+    def step(self, cur, shape, positive, force=None):
         """Apply one random operator to (cur, shape); returns (spec, shape, positive?)."""
         rng = self.rng
         rank = len(shape)
@@ -65,7 +65,7 @@ class G:
             cands = [c for c in cands if c not in ("reduce_sum", "reduce_prod", "reduce_lse")] or ["square"]
         if rank == 1:
             cands = [c for c in cands if not c.startswith("reduce")]  # would give rank 0
-        op = rng.choice(cands)
+        op = force if force in cands else rng.choice(cands)
         ax = rng.randrange(rank)
         ax_arg = ax if rng.random() < 0.5 else ax - rank
         if op in ("sum", "hadamard"):
@@ -81,10 +81,10 @@ class G:
             out = list(shape); out[ax] = shape[ax] * s2[ax]
             return {"op": op, "axis": ax_arg, "args": [cur, other]}, out, positive
         if op == "index":
-            m = rng.choice([1, 2, 3, 4])
+            m = rng.choice([1, 2, 3, 4, shape[ax], shape[ax]])
             idx = [rng.randrange(shape[ax]) for _ in range(m)]
             out = list(shape); out[ax] = m
-            return {"op": op, "axis": ax_arg, "indices": idx, "args": [cur]}, out, positive
+            return {"op": op, "axis": ax_arg, "indices": idx, "in_shape": list(shape), "args": [cur]}, out, positive
         if op in ("reduce_sum", "reduce_prod", "reduce_lse"):
             out = shape[:ax] + shape[ax + 1:]
             return {"op": op, "axis": ax_arg, "args": [cur]}, out, positive and op != "reduce_lse"
@@ -119,15 +119,17 @@ class G:
         return {"op": op, "args": [cur]}, shape, pos
 
 
-def gen_graph(rng: random.Random):
+def gen_graph(rng: random.Random, forced=()):
     cplx = rng.random() < 0.25
     g = G(rng, cplx)
-    rank = rng.choice([1, 2, 2, 2, 3, 3, 4])
-    shape = [rng.choice([1, 2, 3, 4]) for _ in range(rank)]
+    rank = rng.choice([1, 2, 2, 2, 3, 3, 4]) if not forced else rng.choice([3, 3, 4])
+    shape = [rng.choice([1, 2, 3, 4] if not forced else [2, 2, 3]) for _ in range(rank)]
     positive = (not cplx) and rng.random() < 0.5
     cur = g.leaf(shape, positive=positive)
     cur["op"] = "tensor"
-    for _ in range(rng.randint(1, 4)):
+    for f in forced:
+        cur, shape, positive = g.step(cur, shape, positive, force=f)
+    for _ in range(rng.randint(1, 4) if not forced else rng.randint(0, 1)):
         cur, shape, positive = g.step(cur, shape, positive)
     return {"graph": cur, "shape": shape, "cplx": cplx}
 
@@ -157,6 +159,14 @@ def revalue(spec, rng):
                 d["axis"] = ax if rng.random() < 0.5 else ax - rank
         if d["op"] == "index" and rng.random() < 0.7:
             d["indices"] = [rng.randrange(max(d["indices"]) + 1) for _ in d["indices"]]
+        if d["op"] == "index" and d.get("in_shape"):
+            # another axis of the same size with as many indices as that size: same output shape, other axis
+            ish = d["in_shape"]
+            a = d["axis"] % len(ish)
+            same = [b for b in range(len(ish)) if b != a and ish[b] == ish[a] == len(d["indices"])]
+            if same and rng.random() < 0.6:
+                b = rng.choice(same)
+                d["axis"] = b if rng.random() < 0.5 else b - len(ish)
         for a in d.get("args", []):
             rec(a)
 
@@ -316,7 +326,13 @@ def check(run: Run, tier: str, seed: int):
     n = 400 if tier == "quick" else 5000
     for i in range(n):
         srng = random.Random(f"C14-{seed}-{i}")
-        spec = gen_graph(srng)
+        forced = ()
+        if i % 12 == 9:
+            # operator chains that the optimiser fuses (outer product + reduction -> einsum), followed by an
+            # operator that reshapes its input
+            forced = ("outer_product", srng.choice(["reduce_sum", "reduce_sum", "reduce_prod"]),
+                      srng.choice(["outer_sum", "outer_product", "outer_sum", "outer_product", "kronecker", "index", "softmax"]))
+        spec = gen_graph(srng, forced)
         F = [1, 1, 2, 3, 4][i % 5]
         specs = [spec] + [revalue(spec, srng) for _ in range(F - 1)]
         scen = {"specs": specs, "optimize": i % 3 == 0}
